@@ -140,7 +140,7 @@ fn io_faults(nkeys: usize) -> Vec<IoFault> {
     v
 }
 
-fn corruptions(n: usize) -> Vec<Corrupt> {
+fn corruptions(n: usize, thorough: bool) -> Vec<Corrupt> {
     let b = store_bytes(n) as usize;
     let n32 = n as u32;
     let mut v = vec![];
@@ -166,8 +166,14 @@ fn corruptions(n: usize) -> Vec<Corrupt> {
         }
     }
     for byte in 20..b {
-        // one bit per key byte, position varying with the byte
-        v.push(Corrupt::Bit(byte, (byte % 8) as u8));
+        if thorough {
+            for bit in 0..8 {
+                v.push(Corrupt::Bit(byte, bit));
+            }
+        } else {
+            // one bit per key byte, position varying with the byte
+            v.push(Corrupt::Bit(byte, (byte % 8) as u8));
+        }
     }
     v
 }
@@ -176,8 +182,10 @@ fn build_cases(thorough: bool) -> Vec<Case> {
     let mut cases = vec![];
     let hs: &[usize] = if thorough { &[1, 0, 3, 2, 8] } else { &HISTORIES };
     let max_rot = if thorough { 6 } else { MAX_ROT };
+    const PRES_THOROUGH: [Pre; 7] = [Pre::None, Pre::Empty, Pre::Valid(1), Pre::Valid(7), Pre::Garbage, Pre::Valid(2), Pre::Valid(4)];
+    let pres: &[Pre] = if thorough { &PRES_THOROUGH } else { &PRES };
     for &history in hs {
-        for pre in PRES {
+        for &pre in pres {
             for rotations in 0..=max_rot {
                 let s = Scenario { history, pre, rotations };
                 let n = *key_counts(&s).last().unwrap();
@@ -189,7 +197,7 @@ fn build_cases(thorough: bool) -> Vec<Case> {
         }
     }
     for &history in hs {
-        for pre in PRES {
+        for &pre in pres {
             for rotations in 0..=max_rot {
                 let s = Scenario { history, pre, rotations };
                 let n = *key_counts(&s).last().unwrap();
@@ -203,7 +211,7 @@ fn build_cases(thorough: bool) -> Vec<Case> {
     let ns: &[usize] = if thorough { &[1, 2, 3, 4, 9] } else { &[1, 2, 4] };
     for &history in if thorough { &[0usize, 1, 3][..] } else { &[1usize, 3][..] } {
         for &n in ns {
-            for c in corruptions(n) {
+            for c in corruptions(n, thorough) {
                 cases.push(Case::Corrupt(history, n, c));
             }
         }
